@@ -58,12 +58,20 @@ func (c *checker) finishTail() {
 			continue
 		}
 		c.cov("tail-member-checked")
+		suffix := ""
+		for _, u := range c.userRestores {
+			if u.key.s == r.S && !c.restoreAdopted(u) {
+				// this member performed a user restore that never got replicated (the
+				// cluster committed an ordinary entry at the index it burned)
+				suffix = "-after-unreplicated-user-restore"
+			}
+		}
 		if r.E < probe.index {
-			c.violate("C12", "member-not-caught-up", c.tailEnd, "%s (in the leader's configuration, connected) has applied index %d < probe index %d after the convergence budget; leader %s applied %d; %s", r.S, r.E, probe.index, L.S, L.E, describeReads(up))
+			c.violate("C12", "member-not-caught-up"+suffix, c.tailEnd, "%s (in the leader's configuration, connected) has applied index %d < probe index %d after the convergence budget; leader %s applied %d; %s", r.S, r.E, probe.index, L.S, L.E, describeReads(up))
 			continue
 		}
 		if r.F != L.F {
-			c.violate("C12", "member-state-differs", c.tailEnd, "%s has applied up to %d but its FSM state %q differs from the leader's %q", r.S, r.E, r.R, L.R)
+			c.violate("C12", "member-state-differs"+suffix, c.tailEnd, "%s has applied up to %d but its FSM state %q differs from the leader's %q", r.S, r.E, r.R, L.R)
 		}
 	}
 	// C03.3 end state: every running member holds all committed entries
